@@ -1,11 +1,11 @@
 """Scenario scripts for run(): derived from TLC behaviours of MC_RunGrid (spec -> code) or drawn at random, and their
 execution on the real code (producing traces for RunGridTrace)."""
 import os
-import random
 import shutil
 
 from . import tlaparse
-from .rungrid_world import World, Geometry, scripted_schedule, random_schedule  # noqa: F401
+from .rungrid_world import (World, Priority, scripted_schedule, random_schedule, listing_fn,  # noqa: F401
+                            factor_iters)
 
 BIG = 1.0e4
 
@@ -58,34 +58,63 @@ def priorities(ops):
     return {c: BIG ** (gmax + 1 - g) for c, g in cells.items()}
 
 
+def classes_of(ops_or_summary, world):
+    """scenario classes a script/summary belongs to (for the non-vacuity counters of the check)"""
+    cl = set()
+    for o in ops_or_summary:
+        if not isinstance(o, dict):
+            continue
+        m = o.get("mode")
+        if isinstance(m, dict):
+            m = "".join(k[0] for k in ("par", "dump", "allow", "sym") if m.get(k))
+        restart = o.get("restart") is True or o.get("run") == "restart"
+        if restart:
+            cl.add("restart")
+            if o.get("ri", -1) != -1:
+                cl.add("restart_back_or_explicit")
+            if o.get("listing") and list(o["listing"]) != sorted(o["listing"]):
+                cl.add("listing_permuted")
+        if m is not None:
+            if "p" in m:
+                cl.add("parallel")
+            if "d" in m:
+                cl.add("dump")
+            if "a" not in m and "d" not in m:
+                cl.add("memory_only" if o.get("nit", 0) > 0 else "discarded")
+            if "s" in m:
+                cl.add("symmetry")
+    if world.listing_consulted:
+        cl.add("listing_consulted")
+    return cl
+
+
 def execute(ops, geo, workdir, adpt_fac=1, ncpu=2, klist_part=10):
-    """runs the script on the real code; returns (trace events, list of exceptions, world)"""
+    """runs the script on the real code; returns (trace events, list of error texts, world).  world.skipped_ops tells how
+    many ops of the script were not executed (a run raised, or there was nothing to restart from)."""
     if os.path.isdir(workdir):
         shutil.rmtree(workdir)
-    w = World(geo, workdir, priority=priorities(ops))
+    w = World(geo, workdir, priority=Priority("table", priorities(ops), salt=1))
     errs = []
-    for o in ops:
+    w.skipped_ops = 0
+    for j, o in enumerate(ops):
         if o["op"] == "markref":
             w.mark("MarkRef")
             w.clear_results()
             continue
         m = o["mode"]
         listing = o.get("listing")
-        lf = None
-        if listing is not None:
-            def lf(files, listing=listing):
-                key = {int(f.split("-")[-1].split(".")[0]): f for f in files}
-                if sorted(key) != sorted(listing):
-                    return files
-                return [key[i] for i in listing]
+        lf = listing_fn(listing) if listing is not None else None
         sched = o.get("sched_fn") or scripted_schedule(o.get("sched", {}))
         if o["restart"] and not os.path.exists(os.path.join(w.kdir, "K_list.pickle")):
+            w.skipped_ops = len(ops) - j
             break
         res, err = w.run(o["nit"], parallel=m["par"], dump=m["dump"], allow=m["allow"], sym=m["sym"], restart=o["restart"],
                          adpt_fac=adpt_fac, schedule=sched, ncpu=ncpu, listing_fn=lf, klist_part=klist_part,
                          restart_iteration=o.get("ri", -1))
-        if err:
-            errs.append(err)
+        if err or w.private_gone:
+            if err:
+                errs.append(err)
+            w.skipped_ops = len(ops) - j - 1
             break
     shutil.rmtree(workdir, ignore_errors=True)
     return w.events, errs, w
@@ -99,37 +128,33 @@ def random_mode(rng, sym, allow_par=True):
 def execute_random(geo, workdir, rng, niter, adpt_fac=1, ncpu=2, allow_par=True, back=True):
     """an uninterrupted run (reference), then the same calculation stopped and restarted at random places (random
     modes, shuffled directory listings, sometimes restart_iteration going back); refinement choices are made by the
-    code's own selection on pseudo-random priorities (a deterministic function of the cell), the spec accepts any.
-    returns (events, errors, world, summary of the ops actually executed)"""
+    code's own selection on pseudo-random priorities (a deterministic, tie-free function of the cell), the spec accepts
+    any.  returns (events, errors, world, summary of the ops actually executed)"""
     import glob as _glob
     if os.path.isdir(workdir):
         shutil.rmtree(workdir)
-    w = World(geo, workdir, priority=None)
-    seedv = rng.randrange(1 << 30)
-
-    def pri(cell, lev, seedv=seedv):
-        r = random.Random(hash((cell, lev, seedv)))
-        return float(r.choice([1, 2, 3, 5, 7]) * 10 ** r.randint(0, 6))
-    w.calc.pri = pri
+    w = World(geo, workdir, priority=Priority("random", salt=rng.randrange(1 << 30)))
     sym = rng.random() < 0.7
     errs = []
     summary = []
 
     def go(nit, m, restart=False, ri=-1, shuffle=False):
-        lf = None
-        if shuffle:
-            def lf(files):
-                f2 = list(files)
-                rng.shuffle(f2)
-                return f2
-        summary.append(dict(run="restart" if restart else "fresh", nit=nit, ri=ri,
-                            mode="".join(k[0] for k in ("par", "dump", "allow", "sym") if m[k])))
+        def shuffled(files):
+            f2 = list(files)
+            rng.shuffle(f2)
+            return f2
+        lf = shuffled if shuffle else None
+        rec = dict(run="restart" if restart else "fresh", nit=nit, ri=ri,
+                   mode="".join(k[0] for k in ("par", "dump", "allow", "sym") if m[k]))
+        summary.append(rec)
         res, err = w.run(nit, parallel=m["par"], dump=m["dump"], allow=m["allow"], sym=m["sym"], restart=restart,
                          adpt_fac=adpt_fac, schedule=random_schedule(rng, rng.random() < 0.5), ncpu=ncpu, listing_fn=lf,
                          klist_part=rng.choice([1, 2, 10]), restart_iteration=ri)
+        if restart:
+            rec["listing"] = list(w._listing_before)
         if err:
             errs.append(err)
-        return err
+        return err or (w.private_gone and "private names gone") or None
     if go(niter, random_mode(rng, sym, allow_par)) is None and niter > 0:
         w.mark("MarkRef")
         w.clear_results()
@@ -141,7 +166,7 @@ def execute_random(geo, workdir, rng, niter, adpt_fac=1, ncpu=2, allow_par=True,
         steps = 0
         while err is None and steps < 4:
             steps += 1
-            its = sorted(int(f.split("-")[-1].split(".")[0]) for f in _glob.glob(os.path.join(w.kdir, "factors_iter-*.npy")))
+            its = sorted(factor_iters(_glob.glob(os.path.join(w.kdir, "factors_iter-*.npy"))) or [])
             if not its:
                 break
             ri = -1
